@@ -40,6 +40,7 @@ Verdict(e) ==
            hasO == e.which # "pcr"
            offO == IF hasP THEN 13 ELSE 7
        IN IF ~IsPcrValue(e.v) \/ ~IsPcrValue(e.w) \/ Len(e.pkt) # 188 THEN "harness-bad-input"
+          ELSE IF e.setter_err # "" THEN "e2e-setter-refused-a-call-that-fits"
           ELSE IF hasP /\ SubSeq(e.pkt, 7, 12) # EncPCR(e.v) THEN "e2e-pcr-bytes-in-adaptation-field"
           ELSE IF hasO /\ SubSeq(e.pkt, offO, offO + 5) # EncPCR(e.w) THEN "e2e-opcr-bytes-in-adaptation-field"
           ELSE IF hasP /\ (e.pcr_err \/ e.pcr # e.v \/ e.f_pcr # e.v) THEN "e2e-pcr-not-read-back"
